@@ -50,3 +50,22 @@ pub uninterp spec fn segments_of(p: SynPath) -> Vec<String>;
 pub fn path_segments(p: &SynPath) -> (r: Vec<String>)
     ensures r == segments_of(*p), forall|t: SynPath| parsed(*p, t) is Ok ==> key_of(#[trigger] parsed(*p, t)->Ok_0.0) == key_of(r)
 { unimplemented!() }
+
+/// `impl IntoIterator<Item = (syn::Path, AbsolutePath)>` argument of `extend`: a shim iterator over a ghost sequence
+/// (ASSUMED: into_iter() + next() yield the items front to back, each once)
+#[verifier::external_body]
+pub struct SubstElems { _p: () }
+impl SubstElems {
+    pub uninterp spec fn seq(&self) -> Seq<(SynPath, AbsolutePath)>;
+    pub uninterp spec fn pos(&self) -> int;
+    #[verifier::external_body]
+    pub fn into_iter(self) -> (r: SubstElems) ensures r.seq() == self.seq(), r.pos() == self.pos() { unimplemented!() }
+    #[verifier::external_body]
+    pub fn next(&mut self) -> (r: Option<(SynPath, AbsolutePath)>)
+        ensures
+            final(self).seq() == old(self).seq(),
+            0 <= old(self).pos() <= old(self).seq().len(),
+            old(self).pos() < old(self).seq().len() ==> r == Some(old(self).seq()[old(self).pos()]) && final(self).pos() == old(self).pos() + 1,
+            old(self).pos() >= old(self).seq().len() ==> r is None && final(self).pos() == old(self).pos(),
+    { unimplemented!() }
+}
